@@ -1,15 +1,26 @@
 ------------------------------ MODULE MCHeader ------------------------------
 (* Design checks of Header.tla: part (a) over every emission vector with every       *)
 (* permitted encoding, part (b) over every acceptance vector and every run of the    *)
-(* step rules.                                                                       *)
+(* step rules, part (b') over every sequence of headers across one / two restarts.   *)
 EXTENDS Header
 
-InitA == EmitInit(EmitVectors(MaxStr)) /\ v = 0 /\ pc = "" /\ verdict = ""
-SpecA == InitA /\ [][EmitNext /\ UNCHANGED bvars]_<<avars, bvars>>
+NoSeq == hs = 0 /\ k = 0 /\ spc = "" /\ sverdict = "" /\ info = 0 /\ estab = 0
 
-InitB == AcceptInit(AcceptVectors({"none", "decl", "space"}, {"absent", "valid", "invalid"})) /\ x = 0 /\ wire = 0
-SpecB == InitB /\ [][AcceptNext /\ UNCHANGED avars]_<<avars, bvars>>
+InitA == EmitInit(EmitVectors(MaxStr)) /\ v = 0 /\ pc = "" /\ verdict = "" /\ NoSeq
+SpecA == InitA /\ [][EmitNext /\ UNCHANGED <<bvars, svars>>]_<<avars, bvars, svars>>
+
+InitB == AcceptInit(AcceptVectors({"none", "decl", "space"}, {"absent", "valid", "invalid"})) /\ x = 0 /\ wire = 0 /\ NoSeq
+SpecB == InitB /\ [][AcceptNext /\ UNCHANGED <<avars, svars>>]_<<avars, bvars, svars>>
 (* (non-vacuity runs of the version and look-alike dimensions: those vectors only) *)
-InitBV == (v \in VersionVectors \/ v \in LookVectors) /\ pc = "pre" /\ verdict = "none" /\ x = 0 /\ wire = 0
-SpecBV == InitBV /\ [][AcceptNext /\ UNCHANGED avars]_<<avars, bvars>>
+InitBV == (v \in VersionVectors \/ v \in LookVectors) /\ pc = "pre" /\ verdict = "none" /\ x = 0 /\ wire = 0 /\ NoSeq
+SpecBV == InitBV /\ [][AcceptNext /\ UNCHANGED <<avars, svars>>]_<<avars, bvars, svars>>
+
+(* sequences across restarts: the first header is a complete / bare one, every restart *)
+(* continues with any header of SeqCont                                                 *)
+NoAB == x = 0 /\ wire = 0 /\ v = 0 /\ pc = "" /\ verdict = ""
+InitS == SeqInit(Heads) /\ NoAB
+SpecS == InitS /\ [][SeqNext /\ UNCHANGED <<avars, bvars>>]_<<avars, bvars, svars>>
+(* (non-vacuity runs: one restart, the attribute-presence family with unchanged addresses) *)
+TinyCont(s) == IF Len(s) = 1 THEN {h \in SmallHdrs({s[1].role}, {s[1].framing}, {"none"}) : h.to = "valid" /\ h.from \in {"valid", "absent"}} ELSE {}
+SpecSV == InitS /\ [][(SeqStep \/ SRestart(TinyCont)) /\ UNCHANGED <<avars, bvars>>]_<<avars, bvars, svars>>
 =============================================================================
